@@ -46,6 +46,7 @@ import AutosarVerif.Lemmas.FileOps
 import AutosarVerif.Lemmas.Reachable
 import AutosarVerif.Model.ToySpec
 import AutosarVerif.Lemmas.SerFiles
+import AutosarVerif.Lemmas.StepX
 
 namespace AV.C10
 open AV.W
@@ -74,6 +75,14 @@ theorem C10_create_sub_element_keeps_parent_files (S : Spec) (V : Env) (w : Worl
 (`Model/Step.lean`, the step function the driver runs) every local file set lies within the effective set of the parent -/
 theorem C10_every_reachable_state_keeps_parent_files (S : Spec) (V : Env) (rootAttrs : List (Nat × CDv)) (ops : List Op) :
     (run S V rootAttrs ops).filesOk := (run_inv S V rootAttrs ops).2
+
+/-- … and for the larger alphabet (+ `set_item_name`, `sort`; with `set_reference_target` under the guards of the index invariant) -/
+theorem C10_every_reachable_state_keeps_parent_files_larger_alphabet (S : Spec) (V : Env) (vOk : Nat) (rootAttrs : List (Nat × CDv))
+    (hH : IdxHyp S V vOk) (hR : RefWF S) (hv32 : vOk &&& 0xFFFFFFFF = vOk) (ops : List OpX)
+    (hops : ∀ op ∈ ops, OpXOk S vOk op) : (runX S V rootAttrs ops).filesOk :=
+  (runX_inv S V vOk rootAttrs hH hR hv32 ops hops).2
+theorem C10_sort_keeps_parent_files (S : Spec) (V : Env) (w : World) (x : Nat) (hw : w.filesOk) : (opSort S V w x).1.filesOk :=
+  opSort_filesOk S V w x hw
 
 /-- the walk of `add_to_file` one level: the statement the induction carries -/
 theorem C10_add_walk (S : Spec) (f : Nat) (its : Items) (path pe : List Nat) (ps : Bool) (h : FilesOk pe its) :
